@@ -57,6 +57,12 @@ CLAIMED = {
  "C19": ("runtime monitors on SVG.clip_to_viewbox (rendering of input vs output by the reference evaluator: unchanged inside, empty outside, band around shape edges and the viewBox border) and on SVGShape/SVG.bounding_box (analytic extrema: containment and tightness on all four sides)",
          "picosvg documents produced by converting generated sources with random viewBox origins/sizes are clipped and judged at ~270 points incl. border/corner-biased ones; boxes of thousands of curved shapes are judged. Held-on-observed.",
          "Trusts ref/render.py and ref/pathgeom.tight_bbox; slack 3e-5*(1+|coord|) for Skia float32.", "3/C19"),
+ "C16": ("offline checker over an append-only event log written by child interpreters: (hash seed, batch, position, document, options) -> sha256(output)|exception; documents converted alone in fresh processes under 5 PYTHONHASHSEED values and in long-lived processes in random batch permutations with duplicates; every (document, options) group must have exactly one outcome",
+         "Hundreds of conversions of corpus and generated documents (incl. allow_text, gradients, strokes, raising documents) under varied hash seeds, process lifetimes and orders are recorded and grouped. Held-on-observed.",
+         "sha256 of SVG.tostring(); exception outcomes compared by type and message prefix.", "3/C16"),
+ "C17": ("one fresh interpreter per adversarial document under sys.monitoring logical step counting (PY_START + backward JUMP in picosvg code) with a budget linear in the reference-expanded size, under strace -f -e trace=openat,connect with planted canary files/addresses, plus a wall-clock backstop whose firing alone is inconclusive; returned documents validated against the C01 grammar; per-class reach floors from call counts",
+         "Cyclic use/clip-path/gradient references (incl. chains leading into cycles), dangling references, malformed numbers, unsupported elements, deep nesting, wide acyclic use DAGs and DOCTYPE/entity attacks are each run to an outcome in {returned, raised, budget, killed}. Bounded-progress restatement of liveness; held-on-observed.",
+         "Liveness restated as steps <= 60000*(expanded elements+20)+4e6; trusts strace for file/socket visibility.", "3/C17"),
 }
 NOT_YET = "check not built yet in this session (build in progress; see DESIGN.md section 8 for the construction order)"
 
